@@ -120,12 +120,20 @@ theorem foldl_growthSnode_skip (ncols : Nat) (A : NCMat) (inv : Nat → Nat) (U 
     rw [growthSnode_skip ncols A inv U s r (h s List.mem_cons_self)]
     exact ih r fun s' hs' => h s' (List.mem_cons_of_mem _ hs')
 
-theorem growthLoop_eq_spec (ncols : Nat) (A : NCMat) (inv : Nat → Nat) (U : NCP) (l : List Snode) (r : Rat)
-    (h : SupInOrder l) : growthLoop ncols A inv U l r = l.foldl (fun r sn => growthSnode ncols A inv U sn r) r := by
+/-- the repaired loop visits every supernode: it is the fold, whatever the numbering -/
+theorem growthLoop_eq_spec (ncols : Nat) (A : NCMat) (inv : Nat → Nat) (U : NCP) (l : List Snode) (r : Rat) :
+    growthLoop ncols A inv U l r = l.foldl (fun r sn => growthSnode ncols A inv U sn r) r := by
+  induction l generalizing r with
+  | nil => rfl
+  | cons s t ih => simp only [growthLoop, List.foldl_cons]; exact ih _
+
+/-- the original loop (early exit) agreed with the fold only when the supernodes were numbered in column order -/
+theorem growthLoopOrig_eq_spec (ncols : Nat) (A : NCMat) (inv : Nat → Nat) (U : NCP) (l : List Snode) (r : Rat)
+    (h : SupInOrder l) : growthLoopOrig ncols A inv U l r = l.foldl (fun r sn => growthSnode ncols A inv U sn r) r := by
   induction l generalizing r with
   | nil => rfl
   | cons s t ih =>
-    simp only [growthLoop, List.foldl_cons]
+    simp only [growthLoopOrig, List.foldl_cons]
     split
     · rename_i hle
       rw [foldl_growthSnode_skip]
